@@ -5,6 +5,9 @@ package batchresource
 // arguments of Plugin.Calculate (node, strategy, pod list, node metric, NodeResourceTopology behind a fake client,
 // fake clock), calls the REAL Plugin.Calculate and logs input + returned ResourceItems. Expected values are
 // computed only by TLC (ReclaimTrace.tla). The random generator and the "raise" steps only drive execution.
+// Pods may be in the middle of their deletion (term: deletionTimestamp set, phase unchanged) and their resource-status
+// annotation may name NUMA ids the node does not have (stale annotation); the specification charges both like the
+// statement says (every pod that has not terminated; only existing zones bind a pod).
 //
 // Projection (field reads only):
 //   out.cpu / out.mem   {reset: item.Reset, has: item.Quantity != nil, q: item.Quantity.Value()}
